@@ -92,6 +92,9 @@ type oldIter struct {
 type machine struct {
 	t *rapid.T
 
+	bigValues bool // this case also writes values of 30-60 KiB (a flush then carries more than one batch worth of data)
+	bigPuts   int
+
 	lazy       bool
 	lazyInited bool
 	und        *memorydb.Database
@@ -257,6 +260,7 @@ func (m *machine) class(c string) { m.cls[c] = true }
 func newMachine(t *rapid.T) *machine {
 	m := &machine{t: t, overlay: map[string]ovEntry{}, versions: map[string][]version{}, cls: map[string]bool{}}
 	m.lazy = rapid.Bool().Draw(t, "lazy")
+	m.bigValues = rapid.IntRange(0, 7).Draw(t, "bigValues") == 0
 	m.und = memorydb.New()
 	m.real = kvmodel.New()
 	// real DB empty or initialised first
@@ -351,10 +355,20 @@ func (m *machine) check(t *rapid.T) {
 
 func (m *machine) actPut(t *rapid.T) {
 	n := rapid.IntRange(1, 2).Draw(t, "n")
+	if m.bigValues {
+		n = rapid.IntRange(1, 5).Draw(t, "nBig")
+	}
 	for i := 0; i < n; i++ {
 		k := kvmodel.KeyNear(t, "k", m.existing())
 		v := kvmodel.Value(t, "v")
-		m.logf("put(%x,%x)", k, v)
+		if m.bigValues && rapid.IntRange(0, 2).Draw(t, "big") != 0 {
+			fill := byte(rapid.IntRange(0, 255).Draw(t, "fill"))
+			v = bytes.Repeat([]byte{fill}, rapid.IntRange(30<<10, 60<<10).Draw(t, "bigLen"))
+			m.bigPuts++
+			m.logf("put(%x, %d bytes of %02x)", k, len(v), fill)
+		} else {
+			m.logf("put(%x,%x)", k, v)
+		}
 		if err := m.fl.Put(k, v); err != nil {
 			m.failf("Put(%x,%x) error: %v", k, v, err)
 		}
@@ -770,6 +784,9 @@ func (m *machine) actMaintain(t *rapid.T) {
 	switch op := rapid.SampledFrom([]string{"flush", "flush", "flush", "drop", "drop", "underlying", "underlying", "lazyinit"}).Draw(t, "mop"); op {
 	case "flush":
 		m.logf("flush()")
+		if sz := m.fl.NotFlushedSizeEst(); sz > 100*1024 {
+			m.class("flush_of_more_than_100_KiB")
+		}
 		if err := m.fl.Flush(); err != nil {
 			m.failf("Flush error: %v", err)
 		}
